@@ -62,11 +62,12 @@ def setMayBeInFragment : Reader := fun _ => some false
 
 /-! ### `rpn.ConvertToRPNExpr`, `SKConditionImpl.convertToRPNElem`, `SKConditionImpl.IsExist` -/
 
-/-- operator of a binary expression, by how the two functions treat it: `cmp` = the tokens
-that are in `switchMap` (= <> < <= > >= MATCHPHRASE IPINRANGE), `cmpns` = accepted by
-`convertToRPNElem` but not in `switchMap` (MATCH, LIKE), `bad` = anything else. -/
+/-- operator of a binary expression, by how the two functions treat it: `cmp` = the comparisons
+a filter lookup can decide (= MATCHPHRASE IPINRANGE; all in `switchMap`), `cmpo` = the other
+tokens of `switchMap` (<> < <= > >=), `cmpns` = accepted by `convertToRPNElem` but not in
+`switchMap` (MATCH, LIKE), `bad` = anything else. -/
 inductive BOp where
-  | and | or | cmp | cmpns | bad
+  | and | or | cmp | cmpo | cmpns | bad
 deriving DecidableEq, Repr
 
 /-- condition expression; `β` is what a literal carries. -/
@@ -77,20 +78,23 @@ inductive SExpr (β : Type) where
   | paren (e : SExpr β)
 deriving Repr
 
-/-- element of `RPNExpr.Val`. `bad` = a token `convertToRPNElem` rejects (also the zero token
-`switchMap` yields for an operator it does not hold). -/
+/-- element of `RPNExpr.Val`. `cmp` = a comparison token the skip-index readers look up (= and the
+two match operators), `cmpo` = any other comparison token `convertToRPNElem` accepts, `bad` = a
+token it rejects (also the zero token `switchMap` yields for an operator it does not hold). -/
 inductive Tok (β : Type) where
-  | and | or | cmp | bad
+  | and | or | cmp | cmpo | bad
   | var (n : Nat)
   | lit (b : β)
 deriving Repr
 
 def opTok {β : Type} : BOp → Tok β
-  | .and => .and | .or => .or | .cmp => .cmp | .cmpns => .cmp | .bad => .bad
+  | .and => .and | .or => .or | .cmp => .cmp | .cmpo => .cmpo | .cmpns => .cmpo | .bad => .bad
 
-/-- `switchMap[op]` followed by the token classification. -/
+/-- `switchMap[op]` followed by the token classification (`switchMap` keeps the class: = ↦ =,
+< ↦ >, …). -/
 def switchedTok {β : Type} : BOp → Tok β
   | .cmp => .cmp
+  | .cmpo => .cmpo
   | _ => .bad
 
 /-- `ConvertToRPNExpr`: post-order; a binary expression whose right operand is a `VarRef` has
@@ -109,15 +113,18 @@ inductive SKElem (β : Type) where
 deriving Repr
 
 def Tok.isToken {β : Type} : Tok β → Bool
-  | .and | .or | .cmp | .bad => true
+  | .and | .or | .cmp | .cmpo | .bad => true
   | _ => false
 
-/-- `convertToRPNElem`; `none` = it returned an error. -/
+/-- `convertToRPNElem`; `none` = it returned an error. An in-schema field becomes a lookup element
+only when the token two places on is a comparison the readers can decide (`cmp`); under any other
+token the element is `AlwaysTrue` (fix 2 of this round; before, every comparison became a lookup). -/
 def convElems {β : Type} (inSchema : Nat → Bool) : List (Tok β) → Option (List (SKElem β))
   | [] => some []
   | .and :: ts => (convElems inSchema ts).map (SKElem.and :: ·)
   | .or :: ts => (convElems inSchema ts).map (SKElem.or :: ·)
   | .cmp :: ts => convElems inSchema ts
+  | .cmpo :: ts => convElems inSchema ts
   | .bad :: _ => none
   | .lit _ :: ts => convElems inSchema ts
   | .var n :: ts =>
@@ -125,11 +132,13 @@ def convElems {β : Type} (inSchema : Nat → Bool) : List (Tok β) → Option (
     else
       match ts with
       | v :: o :: _ =>
-        if !o.isToken then none
-        else
-          match v with
+        match o with
+        | .cmp =>
+          (match v with
           | .lit b => (convElems inSchema ts).map (SKElem.inRange n b :: ·)
-          | _ => none
+          | _ => none)
+        | .and | .or | .cmpo | .bad => (convElems inSchema ts).map (SKElem.alwaysTrue :: ·)
+        | _ => none
       | _ => none
 
 /-- the loop of `IsExist`; the stack's head is its top. `ans key b` = `reader.IsExist`. -/
